@@ -300,6 +300,12 @@ fn base_fits_docs(rng: &mut Rng) -> Vec<(String, Vec<u8>)> {
     rangemoc2d_to_fits_ivoa(&to_moc2(&st), None, None, &mut b).unwrap();
     docs.push(("stmoc-v2".to_string(), b));
   }
+  {
+    // a small well-formed multi-order map (two depths), besides the repository's sample below
+    let apc = (std::f64::consts::PI / 3.0) / 16.0;
+    let rows: Vec<(u64, f64)> = vec![(4 + 3, 0.02 / (16.0 * apc)), (16 + 20, 0.3 / (4.0 * apc)), (64 + 100, 0.1 / apc), (64 + 101, 0.5 / apc), (16 + 40, 0.05 / (4.0 * apc))];
+    docs.push(("mom".to_string(), crate::c20::mom_fits(2, &rows)));
+  }
   // multi-order map and sky map: the repository's sample files, cut to a few rows
   for (name, path) in [("mom", "/repo/resources/LALInference.multiorder.fits"), ("skymap", "/repo/resources/Skymap/gbuts_healpix_systematic.fits")] {
     if let Ok(full) = std::fs::read(path) {
@@ -576,6 +582,9 @@ pub fn run(ctx: &Ctx) -> Report {
     };
     let kind = if name == "mom" || name == "skymap" { name.as_str() } else { "fits" };
     k += 1;
+    if kind == "mom" && doc.len() <= 16_000 {
+      fitsx::compare_reader_mom(&mut rep, &mut orc, &doc, &name, &what);
+    }
     if kind == "fits" && doc.len() <= 16_000 {
       // the same document through from_fits_ivoa in-process, beside the byte-level model of the
       // reader (Model/FitsCodec.v): verdict, error kind, decoded rows / cells
